@@ -233,6 +233,26 @@ def run_ro(spec, ctx):
         m.st(t >= 0.25)
         objval -= 0.25
     m.st(x == x0)
+    if spec['rules'] and spec['seed'] % 2 == 0:
+        # a first solve while the rules are still free, with every kind of read; the reads after
+        # the real solve below must not see anything remembered from this one
+        try:
+            for y in ys:
+                m.st(y <= 40.0, y >= -40.0)
+            C.solve(m, 'def')
+            if C.optimal(m):
+                for r, y in zip(spec['rules'], ys):
+                    y.get()
+                    if np.array(r['mask']).any():
+                        y.get(z)
+                        y.get(z[0] if len(spec['zshape']) == 1 else z[0, 0])
+                    y(z.assign(np.zeros(tuple(spec['zshape']))))
+                    y()
+                x.get()
+                m.get()
+                ctx.count('reads_before_resolve')
+        except Exception as e:
+            ctx.count('presolve_raises:' + type(e).__name__)
     for r, y in zip(spec['rules'], ys):
         A = np.array(r['A'], float)
         b = np.array(r['b'], float)
